@@ -41,6 +41,13 @@ Inductive input :=
        access token opens for the subject) and then writes it as "CODE" / "IDT" /
        "AT"; a value that fails the check stays as it is.  token_type,
        expires_in, scope and the raw Location / body are projected away. *)
+| IOverlap (other : input) (i : input)
+    (* two calls on one provider that overlap in time: the call [i] is started
+       and held at a point inside the library (a getter of its auth request, a
+       storage method or a method of its http.ResponseWriter blocks); meanwhile
+       the call [other] runs - to completion (nested) or up to its own holding
+       point (crossed) -; then [i] goes on.  [i]'s answer is what is observed;
+       [other]'s answer is judged by its own case, with the roles swapped *)
 | IAfter (prev : input) (accepted : N) (i : input).
     (* a sequence on one process: first the call [prev] answered into an
        http.ResponseWriter that takes only [accepted] bytes of body and then
@@ -133,16 +140,19 @@ Definition blank_raw (o : observed) : observed :=
   | _ => o
   end.
 
-(* every answer is a function of its own request only *)
+(* every answer is a function of its own request only: not of an earlier call
+   (IAfter), not of a call running at the same time (IOverlap) *)
 Fixpoint strip (i : input) : input :=
   match i with
   | IAfter _ _ i' => strip i'
+  | IOverlap _ i' => strip i'
   | _ => i
   end.
 
 Definition model_base (i : input) : observed :=
   match i with
   | IAfter _ _ _ => OFail
+  | IOverlap _ _ => OFail
   | IUrl _ None _ _ _ => OFail
   | IUrl _ (Some u) rtype rmode r =>
       url_obs u (auth_response_url u rtype rmode (encode_response r))
@@ -269,6 +279,7 @@ Definition flow_produced (rtype state ss : string) : pairs :=
 Definition spec_base (i : input) (o : observed) : bool :=
   match i with
   | IAfter _ _ _ => false
+  | IOverlap _ _ => false
   | IFlow redirect parsed rtype rmode st ss =>
       if String.eqb rmode "form_post" then form_spec redirect (flow_produced rtype st ss) o
       else match parsed with
@@ -332,6 +343,7 @@ Definition is_error (r : response) : bool := match r with RError _ _ _ _ => true
 Definition wf_base (i : input) : bool :=
   match i with
   | IAfter _ _ _ => false
+  | IOverlap _ _ => false
   | IFlow redirect parsed rtype rmode _ ss =>
       (* the registered response types; session state belongs to the code response *)
       (String.eqb rtype "code"
